@@ -208,6 +208,26 @@ func checkC14(c C14Case, o *Obs) (err error) {
 	if !bytes.Equal(z, want) {
 		return fmt.Errorf("Translate(Translate(nil,x),y) = %q, want %q", z, want)
 	}
+	// The result belongs to the caller, who edits it in place (soft-masks it, say); the same
+	// call made again - with a nil dst, codon by codon and as a whole - still gives the answer.
+	for n := 0; n+3 <= min(len(seq), 12); n += 3 {
+		one := sequtil.Translate(nil, seq[n:n+3])
+		for i := range one {
+			one[i] = '#'
+		}
+	}
+	whole := sequtil.Translate(nil, seq)
+	for i := range whole {
+		whole[i] = '#'
+	}
+	for n := 0; n+3 <= min(len(seq), 12); n += 3 {
+		if one := sequtil.Translate(nil, seq[n:n+3]); !bytes.Equal(one, want[n/3:n/3+1]) {
+			return fmt.Errorf("Translate(nil, %q) = %q, want %q, after the caller overwrote the result of an earlier, equal call", seq[n:n+3], one, want[n/3:n/3+1])
+		}
+	}
+	if again := sequtil.Translate(nil, seq); !bytes.Equal(again, want) {
+		return fmt.Errorf("Translate(nil, %q) = %q, want %q, after the caller overwrote the result of an earlier, equal call", seq, again, want)
+	}
 	return nil
 }
 
